@@ -35,8 +35,9 @@ Definition no_pin_outputs (g : circuit) : Prop := ∀ n i, g !! n = Some i → n
 
 (* full statements (validated per generated circuit by Run_C03.holds).  Proved below: roundtrip_identical for all circuits that also
    satisfy wf_bb (C03_roundtrip_identical_bb: blackbox instances with connected and unconnected pins, escaped instance names), both
-   statements for circuits without blackboxes.  Not theorems as they stand: wf_rt alone admits the circuits excluded by wf_bb (e.g. a
-   gate called ff0.x, a blackbox type called "and"), whose text the reader rejects or reads differently.
+   statements for circuits without blackboxes.  Not theorems as they stand (C03_full_statements_need_wf_bb at the end of this file): wf_rt
+   alone admits the circuits excluded by wf_bb (e.g. a gate called ff0.x, a blackbox type called "and"), whose text the reader rejects
+   or reads differently.
    roundtrip_equiv with blackboxes, both styles, all constants: C03_roundtrip_equiv_bb (extra hypothesis no_pin_outputs). *)
 Definition roundtrip_equiv_full : Prop := ∀ C b π m rsv,
   wf_rt C → write C b π = Ok m → list_to_set (module_ids m) ⊆ rsv →
@@ -361,3 +362,30 @@ Proof.
   - change (map_Forall (λ (n : string) i, n_ty i = BbIn ∨ n_ty i = BbOut → n_out i = false) (c_g ex_C6)). apply (bool_decide_unpack _). vm_compute. exact I.
   - vm_compute. reflexivity.
 Qed.
+
+(* roundtrip_identical_full and roundtrip_equiv_full are NOT theorems as they stand: wf_rt (lint-clean, names non-empty and not digit-led) does
+   not yet say that the names are identifiers of the text.  A blackbox whose type is called like a primitive gate satisfies wf_rt, the
+   writer emits `and u (.a(x), .y(q));`, and the reader (real and model alike: primitive names are checked first) rejects the named
+   connections of a primitive.  wf_bb excludes this; C03_roundtrip_identical_bb / C03_roundtrip_equiv_bb are the statements with wf_bb. *)
+Definition ex_bad : Circuit := Cases.mk "t"
+  [("x", Input, false, []); ("u.a", BbIn, false, ["x"]); ("u.y", BbOut, false, []); ("q", Buf, true, ["u.y"])] [("u", Cases.mk_bb "and" ["a"] ["y"])].
+Definition ex_bad_ord : worder := {| o_ins := ["x"]; o_outs := ["q"]; o_bbs := [("u", ["a"], ["y"])]; o_nodes := ["q"]; o_fi := [("q", [])] |}.
+Theorem C03_full_statements_need_wf_bb : ¬ roundtrip_identical_full ∧ ¬ roundtrip_equiv_full.
+Proof.
+  assert (Hwf : wf_rt ex_bad).
+  { split; [vm_compute; reflexivity|]. split; [|split; [|split]].
+    - change (map_Forall (λ n i, n_ty i ∈ gate_types → n_fi i ≠ ∅) (c_g ex_bad)). apply (bool_decide_unpack _). vm_compute. exact I.
+    - change (set_Forall (λ n, n ≠ "" ∧ starts_digit n = false) (dom (c_g ex_bad))). apply (bool_decide_unpack _). vm_compute. exact I.
+    - intros i j d e Hd He. revert j e He. revert i d Hd.
+      change (map_Forall (λ (i : string) d, map_Forall (λ (j : string) e, bb_name d = bb_name e → d = e) (c_bbs ex_bad)) (c_bbs ex_bad)).
+      apply (bool_decide_unpack _). vm_compute. exact I.
+    - apply closedb_spec. vm_compute. reflexivity. }
+  assert (Hnc : no_consts (c_g ex_bad)) by (apply (bool_decide_unpack _); vm_compute; exact I).
+  destruct (write ex_bad false ex_bad_ord) as [m| | |] eqn:Ew; try (vm_compute in Ew; discriminate).
+  split; intros H.
+  - specialize (H ex_bad ex_bad_ord m (list_to_set (module_ids m)) Hwf Hnc Ew (reflexivity _)).
+    vm_compute in Ew. injection Ew as <-. vm_compute in H. discriminate.
+  - destruct (H ex_bad false ex_bad_ord m (list_to_set (module_ids m)) Hwf Ew (reflexivity _)) as (C' & Hr & _).
+    vm_compute in Ew. injection Ew as <-. vm_compute in Hr. discriminate.
+Qed.
+Print Assumptions C03_full_statements_need_wf_bb.
